@@ -1,5 +1,5 @@
 (* C03 - Each pixel is composited by the blend mode's formula weighted by coverage. *)
-Require Import RQ.Base RQ.F32 RQ.Rect RQ.Pixel RQ.Raster RQ.PathF RQ.Shader RQ.Surface RQ.Target RQ.TargetProofs RQ.OpsProofs.
+Require Import RQ.Base RQ.F32 RQ.Rect RQ.Pixel RQ.PixelProofs RQ.Raster RQ.PathF RQ.Shader RQ.Surface RQ.Target RQ.TargetProofs RQ.PixelCorollaries RQ.OpsProofs.
 
 (* (1) After any composite that returns, a pixel (X,Y) of the current destination - the surface or a
    layer at any origin: `didx` is the only place the origin enters - is, inside the effective
@@ -45,6 +45,32 @@ Theorem C03_drawing_call_is_one_composite : forall st o st',
   drawing_op o = true -> step_op st o = Ok st' -> effect st st'.
 Proof. exact drawing_op_effect. Qed.
 Print Assumptions C03_drawing_call_is_one_composite.
+
+(* (4) consequences: full coverage with no clip path yields exactly blend(source, previous) for every mode; an opaque
+   SrcOver source or any Src source replaces the pixel exactly (so clear yields exactly the requested colour); zero
+   source or zero global alpha under SrcOver changes nothing *)
+Theorem C03_full_coverage_is_blend : forall m s d b, wf_px d -> blend m s d = Ok b -> wf_px b -> mode_eqb m SrcOver = false ->
+  blit_px (choose_blitter true None m) s d 255 0 = Ok b.
+Proof. exact full_coverage_is_blend. Qed.
+Print Assumptions C03_full_coverage_is_blend.
+Theorem C03_full_coverage_srcover : forall s d, wf_px s -> wf_px d -> premul s = true ->
+  blit_px (choose_blitter true None SrcOver) s d 255 0 = Ok (over s d).
+Proof. exact full_coverage_srcover. Qed.
+Theorem C03_opaque_srcover_replaces : forall s d, wf_px s -> wf_px d -> premul s = true -> get_a s = 255 ->
+  blit_px (choose_blitter true None SrcOver) s d 255 0 = Ok s.
+Proof. exact opaque_srcover_replaces. Qed.
+Print Assumptions C03_opaque_srcover_replaces.
+Theorem C03_src_replaces : forall s d, wf_px s -> wf_px d -> blit_px (choose_blitter true None Src) s d 255 0 = Ok s.
+Proof. exact src_replaces. Qed.
+Theorem C03_zero_source_changes_nothing : forall d m, wf_px d -> 0 <= m <= 255 -> blit_px (choose_blitter true None SrcOver) 0 d m 0 = Ok d.
+Proof. exact zero_source_srcover_noop. Qed.
+Theorem C03_zero_alpha_solid_source_is_zero : forall c, wf_px c -> alpha_mul c (alpha_to_alpha256 0) = 0.
+Proof. exact zero_alpha_solid_is_zero. Qed.
+Print Assumptions C03_zero_alpha_solid_source_is_zero.
+(* the fast path (no mask) computes the same pixel as the masked path at full coverage *)
+Theorem C03_fast_path_independent : forall m s d, wf_px s -> wf_px d -> premul s = true -> premul d = true -> (exists b, blend m s d = Ok b) ->
+  blit_px (choose_blitter false None m) s d 0 0 = blit_px (choose_blitter true None m) s d 255 0.
+Proof. exact fast_path_pixel_eq_general. Qed.
 
 (* non-vacuity: a half-covered SrcOver pixel; 0x80 coverage of opaque white over 0xff000000 *)
 Example C03_example : blit_px (choose_blitter true None SrcOver) 4294967295 4278190080 128 0 = Ok 4286611584.
